@@ -21,12 +21,15 @@ def gateOk (v : Variant) (N : Nat) (name : Str) (targets : List Nat) (controls :
 
 /-- Circuit elements covered by `equal_width_partial`: a measurement has one target, a qubit;
 a gate satisfies `gateOk`; a gate on the whole register is covered iff the tree has the repair
-`globalBox` (the shipped code raises `TypeError`). -/
+`globalBox`, a measurement without `classical_store` iff it has the repair `measBox` (the shipped
+code raises `TypeError` on both). -/
 def opOk (v : Variant) (N : Nat) : Op → Bool
   | .meas [t0] _ => decide (t0 < N)
   | .meas _ _ => false
   | .gate name _ targets controls => gateOk v N name targets controls
   | .glob name _ => v.globalBox && gateOk v N name (List.range N) none
+  | .measNS [t0] => v.measBox && decide (t0 < N)
+  | .measNS _ => false
 
 /-- style / size hypotheses of `equal_width_partial` -/
 def styleOk (sty : Style) (N C : Nat) : Bool :=
@@ -318,6 +321,15 @@ theorem planGate_ok {p N C : Nat} {name : Str} {argLabel : Option Str} {targets 
             exact ⟨_, by rw [hb.top]; exact Nat.le_refl _, updTargetMultiq_w hb (by omega) _ _ _ _ a ha⟩
 
 
+/-- on a tree with the repair `measBox` a one-target measurement without `classical_store` is laid
+out exactly like the plain one-qubit gate labelled `M` -/
+theorem plan_measNS_single {p N C t0 : Nat} (hv : v.measBox = true) :
+    plan v p N C (.measNS [t0]) = planGate v p ['M'] none [t0] none := by
+  simp [plan, planGate, hv, gateText]
+
+theorem gateOk_single {N t0 : Nat} {name : Str} (h : t0 < N) : gateOk v N name [t0] none = true := by
+  simp [gateOk, ctrlList, h]
+
 /-- **Lemma A**: the iteration of a covered element appends at most one piece, of at most the
 layer's width, to each wire of its wire list. -/
 theorem plan_ok {p N C : Nat} {op : Op} {pl : Plan} (hop : opOk v N op = true) (h : plan v p N C op = .ok pl) :
@@ -365,5 +377,13 @@ theorem plan_ok {p N C : Nat} {op : Op} {pl : Plan} (hop : opOk v N op = true) (
     simp only [opOk, Bool.and_eq_true] at hop
     simp only [plan, hop.1, if_true] at h
     exact planGate_ok hop.2 h
+  | measNS targets =>
+    match targets, hop, h with
+    | [], hop, _ => simp [opOk] at hop
+    | _ :: _ :: _, hop, _ => simp [opOk] at hop
+    | [t0], hop, h =>
+      simp only [opOk, Bool.and_eq_true, decide_eq_true_eq] at hop
+      rw [plan_measNS_single hop.1] at h
+      exact planGate_ok (gateOk_single (name := ['M']) hop.2) h
 
 end QipVerif.Render
